@@ -54,12 +54,45 @@ def _engine_method_runs(prog, name):
     return out
 
 
+def signatures_agree(rep: Report, only_group=None) -> None:
+    prog = rep.prog
+    # signatures: numpy == casadi == abstract interface (names, order, which have defaults)
+    for prim, params in P.PRIMS.items():
+        group, name = prim.split(".")
+        if only_group is not None and group != only_group:
+            continue
+        sigsx = {}
+        for impl, mod in (("core", "sym_metanet.engines.core"), ("numpy", PC.ENGINE_MOD["numpy"]),
+                          ("casadi", PC.ENGINE_MOD["casadi"])):
+            cls = PC.GROUP_CLS[group] + ("Base" if impl == "core" else "")
+            fi = prog.function(mod, f"{cls}.{name}")
+            sg = sigs.sig_of(fi.node)
+            dvals = tuple(ast.dump(d) for d in list(fi.node.args.defaults) + [d for d in fi.node.args.kw_defaults if d is not None])
+            sigsx[impl] = (sg.names(), (sg.defaults, dvals), fi)
+        # names, order and which parameters have defaults agree with the abstract interface; the default
+        # *values* agree between the two implementations (the interface's own are never executed)
+        ok = (sigsx["numpy"][:2] == sigsx["casadi"][:2] and sigsx["core"][0] == params
+              and sigsx["numpy"][0] == sigsx["core"][0] and sigsx["numpy"][1][0] == sigsx["core"][1][0])
+        rep.check(ok, "signatures-agree", prim, f"{prog.modules[sigsx['numpy'][2].module].relpath}:{sigsx['numpy'][2].node.lineno}",
+                  f"parameter lists differ: interface {sigsx['core'][:2]}, numpy {sigsx['numpy'][:2]}, casadi {sigsx['casadi'][:2]}",
+                  key=f"sig|{prim}")
+
+
 def run(rep: Report) -> None:
     prog = rep.prog
     rep.trusted += ["python ast", "alias table numpy<->casadi (sma/interp.py)", "admissible-domain facts"]
     runs0 = PC.all_runs(prog, rep.tier, scalar_rank=0)
     runs1 = PC.all_runs(prog, rep.tier, impls=("numpy",), scalar_rank=1)
     by = {(r.impl, r.prim, r.config, r.n1): r for r in runs0}
+    # a primitive is a function of its arguments: nothing kept between calls (a memo with an
+    # incomplete key makes the two engines disagree for the second caller), no comparison by
+    # identity of values, no set of values
+    STATE = {"global-state-store": "keeps state between calls", "value-identity": "compares values by identity",
+             "value-set": "builds a set of model quantities", "memoised": "is memoised"}
+    for r in runs0:
+        ev = [e for e in r.events if e[0] in STATE]
+        rep.check(not ev, "primitive-stateless", f"{r.impl} {r.prim} [{r.config}]{' N=1' if r.n1 else ''}", r.where,
+                  (f"{STATE[ev[0][0]]}: {ev[0][2]}" if ev else ""), key=f"stateless|{r.impl}|{r.prim}")
     nz_eq = PC.prim_normalizer(False)
     n = 0
     for (impl, prim, config, n1), a in sorted(by.items()):
@@ -135,17 +168,4 @@ def run(rep: Report) -> None:
         rep.check(not d and not d2, "engines-equal", f"engine.{name}", f"{wa} vs {wb}",
                   "" if not (d or d2) else f"numpy = {(d or d2)[0][1][:200]} | other = {(d or d2)[0][2][:200]}",
                   key=f"eq|engine.{name}")
-    # signatures: numpy == casadi == abstract interface (names, order, which have defaults)
-    for prim, params in P.PRIMS.items():
-        group, name = prim.split(".")
-        sigsx = {}
-        for impl, mod in (("core", "sym_metanet.engines.core"), ("numpy", PC.ENGINE_MOD["numpy"]),
-                          ("casadi", PC.ENGINE_MOD["casadi"])):
-            cls = PC.GROUP_CLS[group] + ("Base" if impl == "core" else "")
-            fi = prog.function(mod, f"{cls}.{name}")
-            sg = sigs.sig_of(fi.node)
-            sigsx[impl] = (sg.names(), sg.defaults, fi)
-        ok = sigsx["numpy"][:2] == sigsx["casadi"][:2] == sigsx["core"][:2] and sigsx["core"][0] == params
-        rep.check(ok, "signatures-agree", prim, f"{prog.modules[sigsx['numpy'][2].module].relpath}:{sigsx['numpy'][2].node.lineno}",
-                  f"parameter lists differ: interface {sigsx['core'][:2]}, numpy {sigsx['numpy'][:2]}, casadi {sigsx['casadi'][:2]}",
-                  key=f"sig|{prim}")
+    signatures_agree(rep)
